@@ -23,6 +23,7 @@ RULE = (
     "counted and left to C06. The unit and all-ones directions are also scaled so that the normalised innovation is 35 %, 65 % "
     "and 90 % of the documented limit 5*sqrt(2m)+m (moderate innovations well inside the gate, incl. sensors with more readings "
     "than the model has states). distinct = (program, covariance); non-trivial = sensor has >=2 readings or model >=2 states."
+    "One ui.Model object (and one set of noise / sensor dictionaries) is also compiled four times with different calibration maps and CSE settings; every compiled object is checked against ITS calibration right after compiling and again after all were compiled."
 )
 ASSUMPTIONS = [
     "covariances SPD with condition <= 1e4, per-reading noise positive (property's domain)",
@@ -45,6 +46,10 @@ def cases(tier, seed):
     inter = [space.bind_def(2, 0, 1, order=0, sensors_shape=(2, 1)), space.bind_def(2, 1, 0, order=1, sensors_shape=(2,), tag="-twin"),
              space.bind_def(3, 1, 1, order=2, sensors_shape=(3, 2)), space.bind_def(3, 0, 0, order=3, sensors_shape=(1, 3))]
     inter[1]["snoise"] = [[k_, [[r_, v_ * 4.0 + 0.125] for r_, v_ in rs_]] for k_, rs_ in inter[1]["snoise"]]
+    # one ui.Model / sensor dict compiled several times with different calibration maps and CSE settings: each compiled filter
+    # corrects with ITS calibration
+    for d_ in (space.bind_def(2, 1, 2, order=1, sensors_shape=(2, 1)), space.bind_def(3, 0, 1, order=2, sensors_shape=(1, 3))):
+        yield {"kind": "shared", "def": d_, "seed": seed}
     yield {"kind": "interleave", "defs": inter, "seed": seed}
     yield {"kind": "interleave", "defs": list(reversed(inter)), "seed": seed}
     for d in defs:
@@ -64,6 +69,11 @@ def cases(tier, seed):
 
 
 def eval_case(case):
+    if case.get("kind") == "shared":
+        from fv import ekfcheck
+        n, fails = ekfcheck.shared_inputs(case["def"], case["seed"], aspects=("update",))
+        return {"n": n, "fails": fails, "sig": "shared:" + case["def"]["name"], "outcomes": ["evaluated", "shared-inputs"],
+                "sample": {"kind": "shared-inputs", "definition": case["def"]["name"], "compiles_of_one_ui_model": 4, "calls": n}}
     if case.get("kind") == "interleave":
         from fv import ekfcheck
         n, fails = ekfcheck.interleave(case["defs"], case["seed"], "update")
